@@ -25,6 +25,7 @@ import Mfi.Model.Account
 import Mfi.Model.Gate
 import Mfi.Model.Auth
 import Mfi.Model.Admin
+import Mfi.Model.Transfer
 import Mfi.Gen.Constraints
 namespace Mfi.World
 open Mfi Mfi.Fx Mfi.Gen Mfi.Gen.Acc
@@ -137,6 +138,7 @@ structure AcctV where
   authority : Nat
   flags : Nat
   slots : List Account.Slot
+  migratedTo : Nat := 0     -- key of the account this one was transferred to (0 = never transferred)
   deriving Repr
 
 /-- the risk engine's view of a bank the account may hold a position in (the operated bank included, pre-state) -/
@@ -607,6 +609,29 @@ def collectFeesIx (c : Ctx) (feeAtaOk : Bool) : Res CollectOut := do
   .ok { books := { c.b.books with feeI := r.feeI, feeG := r.feeG, feeP := r.feeP },
         toInsurance := r.toInsurance, toGroup := r.toGroup, toProgram := r.toProgram }
 
+/-! ### `transfer_to_new_account`, the whole instruction, on the world's view of an account
+
+`Mfi.Transfer.transfer` (account constraints: pause, group, frozen, authorised without the receivership path; then the fee
+wallet, not in a flash loan, not in receivership, not already migrated; the positions and the flag word move to the new
+account under the new authority, the old account is emptied, disabled and linked) — diffed against the real instruction by
+the `xfer` family; here on the fields `AcctV` carries. -/
+
+def flagBit (flags : Nat) (i : Nat) : Nat := if flags.testBit i then 2 ^ i else 0
+
+def toMAcct (a : AcctV) : Transfer.MAcct :=
+  { group := a.group, authority := a.authority, slots := a.slots,
+    disabled := a.flags.testBit 0, flash := a.flags.testBit 1, recv := a.flags.testBit 4, frozen := a.flags.testBit 6,
+    otherFlags := a.flags - (flagBit a.flags 0 + flagBit a.flags 1 + flagBit a.flags 4 + flagBit a.flags 6),
+    emisDest := 0, migratedFrom := 0, migratedTo := a.migratedTo, lastUpdate := 0 }
+
+def ofMAcct (key : Nat) (m : Transfer.MAcct) : AcctV :=
+  { key, group := m.group, authority := m.authority, slots := m.slots, migratedTo := m.migratedTo,
+    flags := (if m.disabled then 1 else 0) + (if m.flash then 2 else 0) + (if m.recv then 16 else 0) + (if m.frozen then 64 else 0) + m.otherFlags }
+
+def transferIx (g : GroupV) (a : AcctV) (signer newKey newAuth : Nat) (feeWalletOk : Bool) : Res (AcctV × AcctV) :=
+  (Transfer.transfer (toMAcct a) a.key g.key g.admin 1 g.paused signer newKey newAuth (if feeWalletOk then 1 else 2) 0).map
+    fun (o, n) => (ofMAcct a.key o, ofMAcct newKey n)
+
 /-! ### the protocol as a state machine over whole instructions
 
 Any number of margin accounts and banks of one group; a step is one of the whole instructions by any signer on any
@@ -638,6 +663,7 @@ inductive WOp
   | close (ai bi signer : Nat)
   | bankruptcy (ai bi signer : Nat) (available : Int)
   | liquidate (qi ei abi lbi signer : Nat) (amount : Int)   -- liquidator, liquidatee, collateral bank, debt bank
+  | transfer (ai signer newKey newAuth : Nat) (feeWalletOk : Bool)   -- transfer_to_new_account: the world gains an account
   | accrue (bi : Nat)                                        -- the permissionless accrual crank
   | collect (bi : Nat) (feeAtaOk : Bool) (vault : Int)       -- the permissionless fee collection
   | tick (dt : Nat)
@@ -714,6 +740,15 @@ def WState.step (w : WState) (op : WOp) : WState :=
       | .ok o => w.commit2 qi ei abi lbi lq le ab lb o
       | .error _ => w
     | _, _, _, _ => w
+  | .transfer ai signer newKey newAuth feeWalletOk =>
+    -- (`init` of the new account: a fresh key)
+    if newKey = 0 ∨ w.accts.any (fun x => x.key == newKey) then w else
+    match w.accts[ai]? with
+    | some a =>
+      match transferIx w.g a signer newKey newAuth feeWalletOk with
+      | .ok (o, n) => { w with accts := w.accts.set ai o ++ [n] }
+      | .error _ => w
+    | none => w
   | .accrue bi =>
     match w.banks[bi]? with
     | some b =>
